@@ -77,7 +77,9 @@ func kFrameBytes(fr *kFrame, rng *rand.Rand, pad string) []byte {
 	case "null":
 		return []byte("null")
 	case "badjson":
-		return [][]byte{[]byte(`{"parameters":`), []byte(`{"parameters":{}}}`), []byte(`{parameters:{}}`), []byte("\xff\xfe{}x")}[rng.Intn(4)]
+		return [][]byte{[]byte(`{"parameters":`), []byte(`{"parameters":{}}}`), []byte(`{parameters:{}}`), []byte("\xff\xfe{}x"),
+			// a complete reply object with something behind it inside the same frame
+			[]byte(`{"parameters":{}}{"error":"a.b.E"}`), []byte(`{"parameters":{"tok":999}} trailing`), []byte(`{} x`), []byte(`{"continues":true}]`)}[rng.Intn(8)]
 	case "nonobj":
 		return [][]byte{[]byte(`[1]`), []byte(`57`), []byte(`"reply"`), []byte(`true`)}[rng.Intn(4)]
 	case "wrongtype":
